@@ -384,6 +384,12 @@ def three_ways_judge(ck: Check, camp, rn: Runner, opts: dict, res: dict, baselin
     camp.evaluations += 3
     name = "+".join(sorted(opts))
     camp.hit("optionkind:" + "+".join(sorted(rn.tab[k]["kind"] for k in opts)))
+    if all(r["timeout"] for r in res.values()):
+        # the three ways agree: none of them returns. A run that never ends is C01's / C07's subject
+        # (known finding D22: a special_field_name_prefix that is not an identifier, e.g. "0"), not a
+        # disagreement between the ways of supplying the option.
+        camp.hit("all-three-ways-hang(C01/C07 domain)")
+        return
     if any(r["timeout"] for r in res.values()):
         ck.infra_errors.append(f"timeout in three_ways {opts}")
         return
